@@ -188,7 +188,14 @@ Lemma np_check_type f e t : np (check_type f e t).
 Proof. unfold check_type. np_go. Qed.
 #[local] Hint Resolve np_check_type : npdb.
 
-Lemma np_unify w a b : av w (unify a b).
+(* fix 64720dd: the deep versions may run constrain_type, which never panics (but needs fuel: np only) *)
+Lemma np_coc_unsigned_deep f e t : np (coc_unsigned_deep f e t).
+Proof. unfold coc_unsigned_deep. np_go. Qed.
+Lemma np_coc_signed_deep f e t : np (coc_signed_deep f e t).
+Proof. unfold coc_signed_deep. np_go. Qed.
+#[local] Hint Resolve np_coc_unsigned_deep np_coc_signed_deep : npdb.
+
+Lemma np_unify f a b : np (unify f a b).
 Proof. unfold unify. np_go. Qed.
 #[local] Hint Resolve np_unify : npdb.
 
@@ -252,12 +259,12 @@ Lemma np_check_exhaustiveness D ps ty : np (check_exhaustiveness intern D ps ty)
 Proof. unfold check_exhaustiveness. np_go. Qed.
 Hint Resolve np_check_exhaustiveness : npdb.
 
-Lemma np_accs_loop ce D : forall accs,
+Lemma np_accs_loop ce fu D : forall accs,
   (forall st a, In a accs -> match a with XAArray i => np (ce st i) | _ => True end) ->
-  forall st t, np (accs_loop ce D st t accs).
+  forall st t, np (accs_loop ce fu D st t accs).
 Proof.
   induction accs as [|a accs IH]; intros H st t; cbn [accs_loop]; [reflexivity|].
-  assert (IH' : forall st t, np (accs_loop ce D st t accs)) by (apply IH; intros; apply H; now right).
+  assert (IH' : forall st t, np (accs_loop ce fu D st t accs)) by (apply IH; intros; apply H; now right).
   pose proof (fun st => H st a (or_introl eq_refl)) as Ha. clear H IH.
   destruct a; np_go.
 Qed.
